@@ -20,7 +20,89 @@ CFG = {
                  'LogPdf of mixtures and HMMs is C15\'s subject; C16 uses it as the reference for the hooks',
                  'sequential thread pool only (parallel schedules are C17)',
                  'logistic regression, the Stein / log-transform / translation estimators and the shape HMM are not driven'],
- 'min_cov': {},
+ 'min_cov': {
+             'data:all-equal': 468,
+             'data:all-zero': 203,
+             'data:integer': 135,
+             'data:large': 200,
+             'data:missing-category': 120,
+             'data:offset': 37,
+             'data:regular': 946,
+             'data:repeats': 334,
+             'data:wide': 136,
+             'data:with-zeros': 279,
+             'directed:closed.scalar': 2,
+             'directed:closed.vector': 8,
+             'directed:closed.wrapper': 5,
+             'directed:em.hmm': 7,
+             'directed:em.hmm.options': 2,
+             'directed:em.mixture.scalar': 2,
+             'directed:em.mixture.vector': 4,
+             'directed:numeric': 2,
+             'em-family:ScalarId:normal': 27,
+             'em-family:ScalarId:poisson': 27,
+             'em-family:categorical': 112,
+             'em-family:exponential': 123,
+             'em-family:geometric': 136,
+             'em-family:negativeBinomial': 113,
+             'em-family:normal': 139,
+             'em-family:poisson': 131,
+             'em-family:vectorNormal': 55,
+             'em-hmm-restriction:final': 31,
+             'em-hmm-restriction:none': 172,
+             'em-hmm-restriction:start': 33,
+             'em-hmm-restriction:start+final': 10,
+             'em-hmm:OptimizeTransitions=false': 12,
+             'em-hmm:shared-emissions': 36,
+             'em:matrixHmm': 46,
+             'em:nested:hmm': 29,
+             'em:nested:mixture': 26,
+             'em:pairing-checked': 8043,
+             'em:scalarMixture': 401,
+             'em:step-checked': 8036,
+             'em:vectorHmm': 237,
+             'em:vectorMixture': 202,
+             'entry:Estimate': 1321,
+             'entry:EstimateOnData': 1322,
+             'entry:batch': 1280,
+             'estimator:categorical': 493,
+             'estimator:exponential': 479,
+             'estimator:geometric': 477,
+             'estimator:negativeBinomial': 477,
+             'estimator:normal': 483,
+             'estimator:poisson': 471,
+             'estimator:vector-normal': 1004,
+             'judged-estimates': 3803,
+             'mvn:dim=1': 322,
+             'mvn:dim=2': 321,
+             'mvn:dim=3': 313,
+             'mvn:floor-active': 276,
+             'mvn:floor-inactive': 384,
+             'numeric-method:bfgs': 20,
+             'numeric-method:newton': 39,
+             'numeric:exponential': 19,
+             'numeric:gamma': 18,
+             'numeric:judged': 54,
+             'numeric:normal': 39,
+             'perturbation:evaluated': 33550,
+             'perturbation:projected-onto-bound': 7016,
+             'size:n=1': 486,
+             'size:n=2-5': 504,
+             'size:n>5': 1939,
+             'weights:unweighted': 719,
+             'weights:weighted': 1481,
+             'weights:weighted+(-Inf)': 738,
+             'wrapped:categorical': 156,
+             'wrapped:exponential': 158,
+             'wrapped:geometric': 154,
+             'wrapped:negativeBinomial': 162,
+             'wrapped:normal': 162,
+             'wrapped:poisson': 155,
+             'wrapper:ScalarBatchId': 240,
+             'wrapper:ScalarId': 247,
+             'wrapper:ScalarIid': 238,
+             'wrapper:ScalarIid(n=-1)': 240,
+            },
  'parallel': 16,
 }
 
